@@ -578,11 +578,25 @@ def _pure_tree(t):
     return True
 
 
+def _canon_len(t):
+    """rewrite slice-length reads into one form: len(&*x) and PtrMetadata(x) both become ("len", x)"""
+    if not isinstance(t, tuple):
+        return t
+    if t and t[0] == "call" and len(t) > 2 and len(t[2]) == 1 and re.search(r"(<impl \[T\]>|Vec::<T, A>|<impl str>)::len$", t[1]):
+        return ("len", _canon_len(_peel_refs(t[2][0])))
+    if t and t[0] == "un" and t[1] == "PtrMetadata":
+        return ("len", _canon_len(_peel_refs(t[2])))
+    return tuple(_canon_len(x) if isinstance(x, tuple) else x for x in t)
+
+
 def _eq_mod_casts(a, b):
     a, b = strip_casts(a), strip_casts(b)
     if a == b:
         return True
-    return FX.strip_sites(a) == FX.strip_sites(b) and _pure_tree(a)
+    if FX.strip_sites(a) == FX.strip_sites(b) and _pure_tree(a):
+        return True
+    ca, cb = _canon_len(FX.strip_sites(a)), _canon_len(FX.strip_sites(b))
+    return ca == cb and _pure_tree(a) and _pure_tree(b)
 
 
 def implies_lt(cond, pol, idx, length):
@@ -692,6 +706,46 @@ def _guarded_range_index(body, s, base):
 
 def _len_relative_range(body, s, base):
     return None
+
+
+def _first_split_item(body, s):
+    """unwrap/expect of the FIRST next() on a fresh str::split / splitn(n >= 1) / rsplit iterator: these
+    iterators always yield at least one item"""
+    o = body.origin(s.ops[0])
+    if not (o[0] == "call" and o[1].endswith("::next") and len(o[2]) == 1):
+        return None
+    it = _peel_refs(o[2][0])
+    if not (it[0] == "call" and re.search(r"<impl str>::(split|splitn|rsplit|rsplitn|split_inclusive)$", it[1])):
+        return None
+    if re.search(r"::r?splitn$", it[1]):
+        n = const_eval(it[2][1]) if len(it[2]) > 1 else None
+        if n is None or n < 1:
+            return None
+    # the iterator local: receiver of the next() call; no other next() on it may precede this one
+    nb = o[5] if len(o) > 5 else None
+    nc = [c for c in body.calls if c.bb == nb]
+    if not nc:
+        return None
+    rl = op_place(nc[0].args[0])
+    if rl is None:
+        return None
+    roots = {rl[0]}
+    for d in body.defs.get(rl[0], ()):
+        if d[0] == "assign" and d[4][0] == "ref":
+            roots.add(d[4][2][0])
+    for c in body.calls:
+        if c is nc[0] or c.indirect or not c.decl.endswith("::next") or not c.args:
+            continue
+        pl = op_place(c.args[0])
+        if pl is None:
+            continue
+        r2 = {pl[0]}
+        for d in body.defs.get(pl[0], ()):
+            if d[0] == "assign" and d[4][0] == "ref":
+                r2.add(d[4][2][0])
+        if (r2 & roots) - {rl[0], pl[0]} and (nb in body.reach(body.succ[c.bb])):
+            return None
+    return "first item of a fresh %s iterator (always yields at least one item)" % it[1].split("::")[-1]
 
 
 def _len_tree_of(t):
@@ -830,6 +884,9 @@ def _auto_discharge(F, s, cfg):
                 return "index <= %d < %d on every path (per-definition guards/arithmetic)" % (u, lnv)
         return None
     if s.cls == "unwrap":
+        why = _first_split_item(body, s)
+        if why:
+            return why
         o = body.origin(s.ops[0])
         alts = o[1] if o[0] == "phi" else (o,)
         good = True
@@ -887,6 +944,10 @@ def _auto_discharge(F, s, cfg):
                 return "constant range %d..%d within length %d" % (rb[1], rb[2], n)
             if rb[0] == "from" and rb[1] is not None and rb[1] <= n:
                 return "constant range %d.. within length %d" % (rb[1], n)
+    if s.cls == "index" and s.call is not None and s.call.decl.endswith("<impl [T]>::as_chunks"):
+        m = re.search(r"::as_chunks::<(\d+)>$", s.call.full or "")
+        if m and int(m.group(1)) >= 1:
+            return "as_chunks::<%s>: the only panic is N == 0" % m.group(1)
     if s.cls == "index" and s.call is not None and s.call.decl.endswith("ArrayVec::<A>::push"):
         why = _fresh_arrayvec_push(F, s)
         if why:
@@ -972,6 +1033,7 @@ def verify_guard(F, s, entry):
     """a dominating branch whose condition contains all guard tokens must control the site"""
     body = s.body
     want = entry["guard"]
+    found = []
     doms = body.dom.get(s.bb, set())
     for g in sorted(doms):
         t = body.term(g)
@@ -990,7 +1052,10 @@ def verify_guard(F, s, entry):
                 pass
         others = [sx for sx in body.succ[g] if s.bb not in body.reach([sx], avoid=[g])]
         if others:
-            return True, "bb%d: %s" % (g, fmt(o, 120))
+            found.append("bb%d: %s" % (g, fmt(o, 120)))
+    # `guard_count = n`: at least n distinct dominating branches must match (e.g. one per range end)
+    if len(found) >= int(entry.get("guard_count", 1)):
+        return True, "; ".join(found[:3])
     return False, None
 
 
